@@ -82,14 +82,14 @@ CHECKS = {
     "C20": dict(
         engine="parsim",
         technique=TECH + "joblib task orders, worker isolation (pickle round trip), baton-scheduled real threads with seeded pre-emption at line events inside skactiveml, simulated CPU counts; comparison with the sequentially queried wrapped strategy",
-        text="NARROWED CLAIM: the parallel-wrapper clause. ParallelUtilityEstimationWrapper runs on a simulated joblib backend selected through its own parallel_dict: tasks are executed in a seeded permutation, optionally each behind a cloudpickle/pickle round trip (process semantics), or as real threads of which a baton lets exactly one run while a sys.settrace hook pre-empts at up to six seeded task-local line counts inside skactiveml code; joblib.cpu_count as seen by the wrapper is simulated (1..64) and n_jobs ranges over 1..candidates+3 and negative values; index candidates may include labelled samples; parallel_dict may carry its own n_jobs entry. The wrapper must not raise where the wrapped strategy answers, must return the wrapped strategy's utilities (1e-12) and a pick that attains their maximum and, for equal seeds, equals the wrapped strategy's pick. The sub-sampling and single-annotator wrapper clauses are pure functions of the seed and are not decided by this technique.",
+        text="NARROWED CLAIM: the parallel-wrapper clause. ParallelUtilityEstimationWrapper runs on a simulated joblib backend selected through its own parallel_dict: tasks are executed in a seeded permutation, optionally each behind a cloudpickle/pickle round trip (process semantics), or as real threads of which a baton lets exactly one run while a sys.settrace hook pre-empts at up to six seeded task-local line counts inside skactiveml code; joblib.cpu_count as seen by the wrapper is simulated (1..64) and n_jobs ranges over 1..candidates+3 and negative values; index candidates may include labelled samples; parallel_dict may carry its own n_jobs entry; in a third of the runs the wrapper object has been used before (a query with another candidate set of the same size, for half of them with another configuration of the wrapped strategy that is replaced through set_params before the judged call). The wrapper must not raise where the wrapped strategy answers, must return the wrapped strategy's utilities (1e-12) and a pick that attains their maximum and, for equal seeds, equals the wrapped strategy's pick. The sub-sampling and single-annotator wrapper clauses are pure functions of the seed and are not decided by this technique.",
         note="Inner strategies: whitelist of strategies whose candidate utilities are independent of the other candidates; a divergence is reported only after the same chunks evaluated sequentially by the harness agree with the unchunked query. Pick equality only when the utilities are bit-identical or the top-two gap is clear, and only when the wrapped strategy's own pick is a function of (utilities, seed). Pre-emption granularity is a Python line inside skactiveml; loky is represented by pickle isolation.",
         design="4/C20",
     ),
     "C07": dict(
         engine="crowdsim",
         technique=TECH + "crowd-labelling histories with annotator-availability faults (annotators off-line, pairs blocked, no answer) under all documented argument representations; per-call invariant monitor; line-count fuel for the liveness clause; in a share of the runs two caller threads are inside query on the same strategy object under a baton scheduler with seeded pre-emption at line events",
-        text="A multi-annotator strategy (SingleAnnotatorWrapper around every classification strategy of the pool registry, IntervalEstimationThreshold) is driven through several crowd-labelling cycles on a label matrix that fills up. Per cycle the scheduler decides which annotators are off-line, which pairs are blocked, whether a queried annotator answers, how availability and candidates are expressed (None, index array, boolean matrix, feature rows), the batch size and the annotators-per-sample request. Every call must return within a deterministic step budget; the result must be k = min(batch_size, available pairs) pairwise distinct available pairs; utilities must have the documented shape, be NaN at unavailable and already chosen pairs and a number at the chosen pair; an annotators-per-sample request (integer or per-rank array) must be met for every selected sample but the last where the selected samples offer enough pairs. In about 4 % of the runs a second caller thread calls query on the same strategy object with other arguments while the first call is pre-empted at seeded line counts (real threads, one baton, exact replay); each of the two overlapping calls is judged by the same oracle against its own arguments.",
+        text="A multi-annotator strategy (SingleAnnotatorWrapper around every classification strategy of the pool registry, IntervalEstimationThreshold) is driven through several crowd-labelling cycles on a label matrix that fills up. Per cycle the scheduler decides which annotators are off-line, which pairs are blocked, whether a queried annotator answers, how availability and candidates are expressed (None, index array, boolean matrix, feature rows), the batch size and the annotators-per-sample request. Every call must return within a deterministic step budget; the result must be k = min(batch_size, available pairs) pairwise distinct available pairs; utilities must have the documented shape, be NaN at unavailable and already chosen pairs and a number at the chosen pair; an annotators-per-sample request (integer or per-rank array) must be met for every selected sample but the last where the selected samples offer enough pairs. In about 14 % of the runs a second caller thread calls query on the same strategy object with other arguments (its own availability scenario, possibly its own label matrix) while the first call is pre-empted at seeded line counts or, in lockstep plans, at every statement boundary of the outermost library frames (real threads, one baton, exact replay); each of the two overlapping calls is judged by the same oracle against its own arguments.",
         note="Availability is what the arguments say (documented table). Strategies that need the position of candidates in X are not given feature-row candidates (documented refusal). A share of the runs uses string class names with missing_label=None. Known findings: IntervalEstimationThreshold returns fewer pairs; Badge and Quire as wrapped strategies raise once every offered sample carries some annotator's label; QueryByCommittee and EpistemicUncertaintySampling as wrapped strategies cannot handle string class names. Overlapping calls are only generated for wrapped strategies whose own query keeps no per-call state on the object and are never compared with a sequential result.",
         design="4/C07",
     ),
